@@ -390,14 +390,20 @@ Section Typing.
       pose proof (c4_wf_flat_nodup _ _ _ Hwf Hff) as Hn.
       pose proof (flat_attr_single Hattr _ _ _ Hff) as Ha.
       set (fields := map snd fds) in *.
-      destruct (kids4 L (fun f => rec (f_ty f) (f_nillable f)) fields kids [] []) as [[st1 fr1]| |] eqn:E1; try discriminate.
+      destruct (kids4 L (fun f => match f_kind f with KElem => rec (f_ty f) (f_nillable f) | KAttr => attr_elem L C f end) fields kids [] []) as [[st1 fr1]| |] eqn:E1; try discriminate.
       cbn in H.
       destruct (own_atts L fields atts st1 fr1) as [[st2 fr2]| |] eqn:E2; try discriminate. cbn in H.
       destruct (x4_soft C && negb (freq_ok4 fields fr2)); [discriminate|]. inversion H; subst.
       cbn [top_exact]. right. eexists. exists fields. split; [reflexivity|]. split; [exact Hff|].
       apply getattr_members. eapply own_atts_ok; [exact Hn|exact Ha| |exact E2].
       eapply kids4_ok; [exact Hn| |apply st_ok_nil|exact E1].
-      intros f ch w _ Hw. eapply Hrec. exact Hw.
+      intros f ch w _ Hw. cbv beta in Hw. destruct (f_kind f); [eapply Hrec; exact Hw|].
+      unfold attr_elem in Hw. destruct ch as [? ? ? catts ctxt ?|]; [|discriminate].
+      destruct (is_nil catts); [inversion Hw; exact I|].
+      destruct (x4_parse C && _); [discriminate|].
+      destruct (f_ty f) as [p| |]; try discriminate. destruct ctxt as [s|]; [|inversion Hw; exact I].
+      destruct (lc_rd L p s) as [x| |] eqn:Ex; try discriminate. cbn in Hw. inversion Hw; subst.
+      cbn. eapply HL; eauto.
     - (* array_from_element *)
       destruct (mapM (rec el true) kids) as [vs| |] eqn:Em; try discriminate. cbn in H. inversion H; subst.
       cbn [top_exact]. apply has_type_list. eapply mapM_typed; [|exact Em].
